@@ -1145,6 +1145,44 @@ fn aimed_bytes(l: &BigUint, p: &BigUint) -> Vec<u8> {
     be32(&a).to_vec()
 }
 
+/// Operands (as canonical byte strings) whose Montgomery product a*b has the chosen quotient
+/// digits in its reduction: with T = A*B (A, B the stored limbs), the digits are those of
+/// T * (-p^-1) mod 2^256, so pick the digits k, set T = -k*p mod 2^256, pick A odd and solve
+/// B = T * A^-1 mod 2^256 (retry until B < p).
+fn aimed_mul_pair(pr: &mut Prng, p: &BigUint) -> Option<(Vec<u8>, Vec<u8>)> {
+    let rr = mont_r();
+    let mut k = BigUint::zero();
+    for _ in 0..4 {
+        let d = match pr.below(7) {
+            0 | 1 | 2 => 0u64,
+            3 => u64::MAX,
+            4 => 1,
+            _ => pr.next_u64(),
+        };
+        k = (k << 64) + BigUint::from(d);
+    }
+    let t0 = (&rr - ((&k * p) % &rr)) % &rr;
+    // exponent of the unit group of Z/2^256 is 2^254: a^(2^254 - 1) = a^-1 for odd a
+    let e = (BigUint::one() << 254) - 1u32;
+    for _ in 0..12 {
+        let mut a = from_be(&pr.bytes(32)) % p;
+        if !a.bit(0) {
+            a += 1u32;
+        }
+        if a >= *p {
+            continue;
+        }
+        let ainv = a.modpow(&e, &rr);
+        let b = (&t0 * &ainv) % &rr;
+        if b >= *p || b.is_zero() {
+            continue;
+        }
+        debug_assert_eq!((&a * &b) % &rr, t0);
+        return Some((aimed_bytes(&a, p), aimed_bytes(&b, p)));
+    }
+    None
+}
+
 fn set_bits_of(p: &BigUint) -> Vec<usize> {
     (0..256).filter(|&i| p.bit(i as u64)).collect()
 }
@@ -1399,7 +1437,36 @@ pub fn generate(seed: u64) -> FldSpec {
                     ops.push(FOp::SetBit { dst, bit, to: pr.chance(2, 3) });
                 }
             }
-            5 => match pr.below(10) {
+            5 => match pr.below(13) {
+                10 | 11 => {
+                    // aimed at the Montgomery multiplier's hidden state: operands whose product has
+                    // chosen quotient digits (0, 1, 2^64-1, ...) in the reduction rows
+                    if let Some((ba, bb)) = aimed_mul_pair(&mut pr, p) {
+                        let (ra, rb) = (a, (a + 1) % n);
+                        ops.push(FOp::FromSlice { k, dst: ra, bytes: hex(&ba), via_try: false });
+                        ops.push(FOp::FromSlice { k, dst: rb, bytes: hex(&bb), via_try: false });
+                        let form = *pr.pick(&FORMS);
+                        ops.push(FOp::Bin { k, o: BinOp::Mul, form, dst, a: ra, b: rb });
+                        if pr.chance(1, 3) {
+                            ops.push(FOp::Bin { k, o: BinOp::Mul, form, dst: b, a: rb, b: ra });
+                        }
+                    }
+                }
+                12 => {
+                    // two values whose stored limbs differ in exactly one limb (or one bit): the
+                    // pairwise == monitor then compares them ("equality is value equality")
+                    let l = limb_patterns(&mut pr, p) % p;
+                    let j = pr.below(4) as u32;
+                    let l2 = match pr.below(3) {
+                        0 => &l ^ (BigUint::one() << (64 * j + pr.below(64) as u32)),
+                        1 => &l ^ (BigUint::from(u64::MAX) << (64 * j)),
+                        _ => &l ^ (BigUint::from(pr.next_u64() | 1) << (64 * j)),
+                    } % p;
+                    let (ra, rb) = (dst, (dst + 1) % n);
+                    ops.push(FOp::FromSlice { k, dst: ra, bytes: hex(&aimed_bytes(&l, p)), via_try: false });
+                    ops.push(FOp::FromSlice { k, dst: rb, bytes: hex(&aimed_bytes(&l2, p)), via_try: false });
+                    ops.push(FOp::Bin { k, o: BinOp::Sub, form: Form::VV, dst: a, a: ra, b: rb });
+                }
                 0 => ops.push(FOp::Neg { k, dst, a, by_ref: pr.chance(1, 2) }),
                 1 => ops.push(FOp::Copy { k, dst, a }),
                 _ => {
